@@ -14,7 +14,7 @@ func init() {
 	register(&propDef{
 		ID: "C16",
 		Meta: propMeta{
-			Explanation: "Decides the structural mechanisms that make re-encoding lossless: (R16a) type shape — ContentInfo and SignerInfo capture their original encoding in a leading asn1.RawContent field, certificates, attribute values and issuer names are asn1.RawValue, marshalCertificates fills FullBytes from cert.Raw (removing any of these makes encoding/asn1 re-encode signed parts); (R16b) signed attributes are digested in the encoding that is emitted: the verifier hashes AuthenticatedAttributesBytes(), which returns the re-marshalled list only when no raw content was captured and otherwise re-tags the original bytes; the builder hashes and emits the same attribute list; (R16c) content-type and message-digest are added exactly once, only by SignatureBuilder.Sign under `authAttrs != nil`, with the builder's content type and digest; no other code adds those OIDs; no function calls Sign() twice on one builder or in a loop; (R16d) every SignatureBuilder.Sign result flows into pkcs9.TimestampAndMarshal, which self-checks (SignedData.Verify + VerifyOptionalTimestamp) before marshalling and returns the marshalled bytes of that same structure; (R16e) in lib/pkcs7 and lib/pkcs9 no failure branch of asn1.Marshal/Unmarshal reaches a nil-error return (one unreachable site noted); (R16f) Detach replaces the content by a content-less ContentInfo of the same type. (R16h) SignedData.CRLs keeps each CRL's signed part raw (asn1.RawValue or a tbsCertList with a leading RawContent); NewContentInfo records the content type it was asked for on every path; no parsed structure that is returned aliases a buffer that goes back into a sync.Pool. (R16g) a ContentInfo handed to the builder is stored, digested and emitted as it is. (R16i) no function writes a field of a SignedData, ContentInfoSignedData, ContentInfo or SignerInfo that it did not build itself (one reached from a parameter, a copy of a by-value parameter, a call result or a package variable), the unsigned attributes excepted, other than ContentInfoSignedData.Detach: getters and helpers on the way to embedding leave a received token exactly as it was parsed.",
+			Explanation: "Decides the structural mechanisms that make re-encoding lossless: (R16a) type shape — ContentInfo and SignerInfo capture their original encoding in a leading asn1.RawContent field, certificates, attribute values and issuer names are asn1.RawValue, marshalCertificates fills FullBytes from cert.Raw (removing any of these makes encoding/asn1 re-encode signed parts); (R16b) signed attributes are digested in the encoding that is emitted: the verifier hashes AuthenticatedAttributesBytes(), which returns the re-marshalled list only when no raw content was captured and otherwise re-tags the original bytes; the builder hashes and emits the same attribute list; (R16c) content-type and message-digest are added exactly once, only by SignatureBuilder.Sign under `authAttrs != nil`, with the builder's content type and digest; no other code adds those OIDs; no function calls Sign() twice on one builder or in a loop; (R16d) every SignatureBuilder.Sign result flows into pkcs9.TimestampAndMarshal, which self-checks (SignedData.Verify + VerifyOptionalTimestamp) before marshalling and returns the marshalled bytes of that same structure; (R16e) in lib/pkcs7 and lib/pkcs9 no failure branch of asn1.Marshal/Unmarshal reaches a nil-error return (one unreachable site noted); (R16f) Detach replaces the content by a content-less ContentInfo of the same type. (R16h) SignedData.CRLs keeps each CRL's signed part raw (asn1.RawValue or a tbsCertList with a leading RawContent); NewContentInfo records the content type it was asked for on every path; no parsed structure that is returned aliases a buffer that goes back into a sync.Pool. (R16g) a ContentInfo handed to the builder is stored, digested and emitted as it is. (R16i) no function writes a field of a SignedData, ContentInfoSignedData, ContentInfo or SignerInfo that it did not build itself (one reached from a parameter, a copy of a by-value parameter, a call result or a package variable), the unsigned attributes excepted, other than ContentInfoSignedData.Detach: getters and helpers on the way to embedding leave a received token exactly as it was parsed. (R16k) wherever the result of the builtin copy is used, the function compares it (or a sum it enters) with the length of the copy's source, or the copy sits in a loop, or keeps the rest of the source (Read / ReadAt / Write methods, which report a partial transfer by contract, are not judged): an encoded structure is never cut off to the room that was left without that being noticed. (R16j) the asn1 tags of pkcs7.SignedData.Certificates and CRLs carry no `set`: encoding/asn1 would otherwise sort the lists on every Marshal and a parsed structure would be re-emitted in another order.",
 			NotDecided:  "byte identity of Marshal(Unmarshal(x)) on concrete values (a property of encoding/asn1 on data), BER quirks of third-party tokens.",
 			Assumptions: []string{"encoding/asn1 writes RawContent / RawValue.FullBytes verbatim"},
 		},
@@ -663,6 +663,15 @@ var c16Writers = map[string]string{
 func c16WhoWrites(c *Ctx) {
 	p := c.P
 	c.Rule("R16i", "a received or parsed SignedData / ContentInfo / SignerInfo is written to only by Detach; everything else builds fresh values", 1)
+	c.Rule("R16k", "where the count copy() returns is used it is compared with the length of the source (module-wide)", 0)
+	for _, f := range copyCountsNotTrusted(c.P) {
+		c.Check(f.OK, "R16k", f.Key, f.Pos, "", f.Detail)
+	}
+	c.runControl("R16k copy count control (ctl/idxin.Place)", "idxin.Place", copyCountsNotTrusted)
+	c.Rule("R16j", "the certificate and CRL lists of SignedData are marshalled in the order they were parsed in (no `set` tag; shared with C07 R07i)", 2)
+	for _, f := range cmsListsKeepOrder(c.P) {
+		c.Check(f.OK, "R16j", f.Key, f.Pos, "", f.Detail)
+	}
 	guarded := map[string]bool{"lib/pkcs7.SignedData": true, "lib/pkcs7.ContentInfoSignedData": true, "lib/pkcs7.ContentInfo": true, "lib/pkcs7.SignerInfo": true}
 	n := 0
 	for _, fn := range p.Funcs {
